@@ -608,6 +608,99 @@ C14_back(step) ==
 C14Clauses(step) == IF step.op.op = "Graph" THEN {C14_nodes(step), C14_edges(step), C14_back(step)} ELSE {}
 
 -----------------------------------------------------------------------------
+(* C15 — DOT output is always valid Graphviz: one node per element, one path per  *)
+(* relation.  step.res = the structure Graphviz itself reports for the emitted    *)
+(* text (harness/lex_dot.py); step.src = projection of the source; step.op.opts = *)
+(* [nary, labels, elattrs, relattrs: BOOLEAN, dir: STRING]                        *)
+DLabel == [generation |-> "wasGeneratedBy", usage |-> "used", communication |-> "wasInformedBy",
+           start |-> "wasStartedBy", end |-> "wasEndedBy", invalidation |-> "wasInvalidatedBy",
+           derivation |-> "wasDerivedFrom", attribution |-> "wasAttributedTo",
+           association |-> "wasAssociatedWith", delegation |-> "actedOnBehalfOf",
+           influence |-> "wasInfluencedBy", alternate |-> "alternateOf",
+           specialization |-> "specializationOf", mention |-> "mentionOf", membership |-> "hadMember"]
+DShape == [entity |-> "oval", activity |-> "box", agent |-> "house"]
+DContainers(src) == <<[n |-> 0, recs |-> UnifiedSpec(src.recs)]>> \o
+                    [i \in 1..Len(src.bundles) |-> [n |-> i, recs |-> UnifiedSpec(src.bundles[i].recs)]]
+RefPos(k) == SelectSeq(Formals[k], LAMBDA f : f \in RefAttrs)
+OrNone(u) == u          \* NONE is <<>>, the lexer's "no URL"
+DOther(r) == {x \in r.attrs : ~IsRefU(x.a)}
+DPath(r, o) ==
+  LET pos == RefPos(r.k)
+      nary == Len(pos) > 2 /\ o.nary
+      annot == o.relattrs /\ DOther(r) # {}
+  IN [label |-> DLabel[r.k], tail |-> RefOf(r, pos[1]), head |-> RefOf(r, pos[2]),
+      via |-> nary \/ annot,
+      extra |-> IF nary THEN {<<pos[i], RefOf(r, pos[i])>> : i \in {j \in 3..Len(pos) : RefOf(r, pos[j]) # NONE}} ELSE {},
+      ann |-> annot]
+DRels(cs) == FlattenSeq([i \in 1..Len(cs) |-> SelectSeq(cs[i].recs, LAMBDA r : r.k \notin Elements)])
+DElsOf(c) == SelectSeq(c.recs, LAMBDA r : r.k \in Elements)
+DReferenced(src, o) ==
+  UNION {LET p == DPath(r, o) IN ({p.tail, p.head} \cup {e[2] : e \in p.extra}) \ {NONE}
+           : r \in SeqToSet(DRels(DContainers(src)))}
+IsDot(step) == step.op.op = "Dot" /\ step.exc = "none"
+C15_accepted(step) == Cl("C15_accepted", step.op.op = "Dot", step.exc = "none" /\ step.res.ok)
+C15_nodes(step) ==
+  LET cs == DContainers(step.src)
+      want == FlattenSeq([i \in 1..Len(cs) |->
+                 LET es == DElsOf(cs[i]) IN
+                 [j \in 1..Len(es) |-> [url |-> es[j].id, shape |-> DShape[es[j].k], c |-> cs[i].n]]])
+      got == [i \in 1..Len(step.res.nodes) |->
+                [url |-> step.res.nodes[i].url, shape |-> step.res.nodes[i].shape, c |-> step.res.nodes[i].c]]
+  IN Cl("C15_nodes", IsDot(step) /\ step.res.ok,
+        /\ SameBag(got, want)
+        /\ \A u \in DReferenced(step.src, step.op.opts) :
+              (\E i \in 1..Len(step.res.nodes) : step.res.nodes[i].url = u) \/ u \in SeqToSet(step.res.generic)
+        /\ SeqToSet(step.res.generic) \subseteq DReferenced(step.src, step.op.opts))
+C15_edges(step) ==
+  LET rels == DRels(DContainers(step.src))
+      want == [i \in 1..Len(rels) |-> DPath(rels[i], step.op.opts)]
+      got == [i \in 1..Len(step.res.paths) |->
+                LET p == step.res.paths[i] IN
+                [label |-> p.label, tail |-> p.tail, head |-> p.head, via |-> p.via,
+                 extra |-> {<<p.extra[j][1], p.extra[j][2]>> : j \in 1..Len(p.extra)}, ann |-> p.ann]]
+  IN Cl("C15_edges", IsDot(step) /\ step.res.ok /\ Len(rels) > 0,
+        /\ SameBag(got, want)
+        /\ \A i \in 1..Len(step.res.paths) : step.res.paths[i].nseg2 = 1)
+C15_clusters(step) ==
+  Cl("C15_clusters", IsDot(step) /\ step.res.ok,
+     /\ Len(step.res.clusters) = Len(step.src.bundles)
+     /\ \A i \in 1..Len(step.res.clusters) :
+          \E j \in 1..Len(step.src.bundles) : step.res.clusters[i].n = j /\ step.res.clusters[i].url = step.src.bundles[j].id)
+C15_annotations(step) ==
+  LET o == step.op.opts
+      cs == DContainers(step.src)
+      rowsOf(r) == LET sq == SetToSeq(DOther(r)) IN [i \in 1..Len(sq) |-> sq[i].a]
+      wantEl == IF o.elattrs
+                THEN SelectSeq(FlattenSeq([i \in 1..Len(cs) |-> DElsOf(cs[i])]), LAMBDA r : DOther(r) # {})
+                ELSE <<>>
+      wantRel == SelectSeq(DRels(cs), LAMBDA r : DPath(r, o).ann)
+      norm(on, blank, rows) == [on |-> on, blank |-> blank,
+                                rows |-> {<<a, CountIn(rows, a)>> : a \in SeqToSet(rows)}]
+      want == [i \in 1..Len(wantEl) |-> norm(wantEl[i].id, FALSE, rowsOf(wantEl[i]))]
+              \o [i \in 1..Len(wantRel) |-> norm(NONE, TRUE, rowsOf(wantRel[i]))]
+      got == [i \in 1..Len(step.res.anns) |->
+                norm(step.res.anns[i].on, step.res.anns[i].onblank, step.res.anns[i].rows)]
+  IN Cl("C15_annotations", IsDot(step) /\ step.res.ok, SameBag(got, want))
+(* with use_labels a labelled element is drawn with its label as the first rendered text *)
+(* run and its identifier as the second; the text Graphviz renders is the label itself    *)
+(* (this is what detects markup injection that happens to stay well-formed)                *)
+C15_labels(step) ==
+  LET cs == DContainers(step.src)
+      labelsOf(n) == UNION {{x.v.v : x \in {y \in r.attrs : y.a = ProvU("label") /\ y.v.t \in {"str", "lang"}}}
+                              : r \in {q \in SeqToSet(DElsOf(cs[n.c + 1])) : q.id = n.url /\ q.k = n.kind}}
+      labelled == {i \in 1..Len(step.res.nodes) : labelsOf(step.res.nodes[i]) # {}}
+  IN Cl("C15_labels", IsDot(step) /\ step.res.ok /\ step.op.opts.labels /\ labelled # {},
+        \A i \in labelled : LET n == step.res.nodes[i] IN n.nruns = 2 /\ SeqToSet(n.text1) \cap labelsOf(n) # {})
+C15_rankdir(step) ==
+  Cl("C15_rankdir", IsDot(step) /\ step.res.ok,
+     step.res.rankdir = (IF step.op.opts.dir \in {"BT", "TB", "LR", "RL"} THEN step.op.opts.dir ELSE "BT"))
+C15Clauses(step) ==
+  IF step.op.op = "Dot"
+  THEN {C15_accepted(step), C15_nodes(step), C15_edges(step), C15_clusters(step),
+        C15_annotations(step), C15_rankdir(step), C15_labels(step)}
+  ELSE {}
+
+-----------------------------------------------------------------------------
 (* Conformance (drift) clauses: the model's post-state against the logged   *)
 (* one.  A failure here never becomes a VIOLATION (DESIGN 2.5).             *)
 M_Names(msPost, mres, step) ==
